@@ -139,7 +139,7 @@ def callRet (cfg : Cfg) (pre : List Ev) (sid : Nat) : Option (List Payload × C1
   match pre[sid]? with
   | some (.runner (.start cid now ps)) =>
     (C13.modelCall cfg.expire (cacheAt cfg (pre.take sid)) now ps
-        (C13.donesOf cid (runnerEvs (pre.drop (sid + 1))))).map (fun R => (ps, R))
+        (C13.donesOf cid (runnerEvs (pre.drop (sid + 1)))) false).map (fun R => (ps, R))
   | _ => none
 
 /-- the sinks written by a flow run that post-processes call `sid` after the history `pre`:
